@@ -5,7 +5,8 @@ init_from_value/_restore_state`, `InputExp.__init__/cond_put/calc_output`;
 edzed/simulator.py `init_sblock`; edzed/block.py `SBlock.set_output`).
 
 The user's validators are arbitrary functions: `check : Val → Val` (the result is tested for
-truthiness), `schema : Val → Option Val` (`none` = the schema raised).  `allowed` is a list of
+truthiness), `schema : Val → Except Exc Val` (`.error k` = the schema raised an exception of
+class `k`; `_validate` turns ANY `Exception` into a refusal, so the class is never looked at).  `allowed` is a list of
 values turned into a `frozenset` by the constructor.  Every validation also yields the list of
 calls of user code it made, in order, so that "schema last" is a statement about the model.
 
@@ -17,11 +18,18 @@ import EdzedModel.Basic.Val
 
 namespace Edzed.Validate
 
-/-- the three optional validators of `_Validation.__init__` -/
+/-- classes of exceptions a schema function may raise (`custom` = any other subclass of
+    `Exception`, e.g. a validation library's own error) -/
+inductive Exc where
+  | valueError | typeError | keyError | zeroDivisionError | attributeError | custom
+  deriving DecidableEq, Repr, Inhabited
+
+/-- the three optional validators of `_Validation.__init__`; `allowed` is the constructor's own
+    `frozenset(allowed)` COPY of the caller's collection -/
 structure Cfg where
   allowed : Option (List Val)
   check : Option (Val → Val)
-  schema : Option (Val → Option Val)
+  schema : Option (Val → Except Exc Val)
 
 /-- a call of user code made by `_validate` -/
 inductive Call where
@@ -34,11 +42,12 @@ inductive Call where
 def inAllowed (l : List Val) (v : Val) : Bool :=
   v.hashable && l.any (fun a => v.pyEq a)
 
-/-- third stage: `value = self._schema(value)`, any exception becomes a ValueError -/
+/-- third stage: `value = self._schema(value)`; `except Exception` – an exception of whatever
+    class becomes the ValueError of a refusal -/
 def schemaStage (c : Cfg) (v : Val) : Option Val × List Call :=
   match c.schema with
   | none => (some v, [])
-  | some s => (s v, [.schema v])
+  | some s => ((s v).toOption, [.schema v])
 
 /-- second stage: `not self._check(value)` raises ValueError -/
 def checkStage (c : Cfg) (v : Val) : Option Val × List Call :=
@@ -222,5 +231,81 @@ def ExpState.value (s : ExpState) : Option Val :=
   match s.st with
   | .valid => s.input
   | .expired => none
+
+/-! ### the caller's collection
+
+`allowed=` may be any collection, also a mutable one (a `set`, a `list`, the keys of a `dict`) that
+the caller goes on using – clearing and refilling one scratch set for several blocks, say.  The
+constructor takes a snapshot (`frozenset(allowed)`): the block's `Cfg.allowed` is a value, the
+caller's object lives on beside it and is NOT an input of `validate`. -/
+
+/-- what the caller may do with its own collection afterwards -/
+inductive Mut where
+  | clear
+  | add (v : Val)
+  | remove (v : Val)
+  deriving Repr, Inhabited
+
+/-- a Python `set` as a duplicate-free list -/
+def callerMutate (coll : List Val) : Mut → List Val
+  | .clear => []
+  | .add v => if coll.any (fun a => a.pyEq v) then coll else coll ++ [v]
+  | .remove v => coll.filter (fun a => !a.pyEq v)
+
+/-- an Input together with the collection object its `allowed` was built from -/
+structure World where
+  cfg : Cfg
+  out : Val
+  caller : Option (List Val)
+
+/-- right after the constructor: the block owns a copy of the contents -/
+def World.new (allowed : Option (List Val)) (check : Option (Val → Val))
+    (schema : Option (Val → Except Exc Val)) : World :=
+  ⟨⟨allowed, check, schema⟩, .undef, allowed⟩
+
+def World.put (w : World) (v : Val) : World × Res × List Call :=
+  let p := Validate.put w.cfg w.out v
+  ({ w with out := p.out }, p.res, p.calls)
+
+def World.mutate (w : World) (m : Mut) : World :=
+  { w with caller := w.caller.map (fun l => callerMutate l m) }
+
+inductive WOp where
+  | put (v : Val)
+  | mutate (m : Mut)
+  deriving Repr, Inhabited
+
+def World.step (w : World) : WOp → World
+  | .put v => (w.put v).1
+  | .mutate m => w.mutate m
+
+def World.run (w : World) (ops : List WOp) : World := ops.foldl World.step w
+
+/-- an InputExp together with the caller's collection -/
+structure ExpWorld where
+  e : ExpCfg
+  s : ExpState
+  caller : Option (List Val)
+
+def ExpWorld.put (w : ExpWorld) (v : Val) : ExpWorld × Bool × List Call :=
+  let r := putExp w.e w.s v
+  ({ w with s := r.1 }, r.2.1, r.2.2)
+
+def ExpWorld.wait (w : ExpWorld) (d : Nat) : ExpWorld := { w with s := Validate.wait w.e w.s d }
+
+def ExpWorld.mutate (w : ExpWorld) (m : Mut) : ExpWorld :=
+  { w with caller := w.caller.map (fun l => callerMutate l m) }
+
+inductive EWOp where
+  | op (o : ExpOp)
+  | mutate (m : Mut)
+  deriving Repr, Inhabited
+
+def ExpWorld.step (w : ExpWorld) : EWOp → ExpWorld
+  | .op (.put v) => (w.put v).1
+  | .op (.wait d) => w.wait d
+  | .mutate m => w.mutate m
+
+def ExpWorld.run (w : ExpWorld) (ops : List EWOp) : ExpWorld := ops.foldl ExpWorld.step w
 
 end Edzed.Validate
